@@ -154,9 +154,9 @@ RULES = {
            "Get of every key ever used + IterateKV multiset + page-structure invariant after DeleteBelow/rewrite/Reset/end. Non-trivial: "
            "tree reached >=3 levels or >=8 pages AND a DeleteBelow removed >=1 and kept >=1 key AND a page was recycled AND a later Set "
            "reused a free page; distinct = FNV hash of (page size, op list).",
-    "C16": "as C10 on NewTreePersistent in a per-case file with page sizes 128..4096 (power of two) plus a Reopen op (Close; "
+    "C16": "as C10 on NewTreePersistent in a per-case file with page sizes 80..4096 plus a Reopen op (Close; "
            "NewTreePersistent) anywhere; after Reopen: Stats equal except Allocated, full Get/IterateKV agreement with the model, "
-           "page-structure invariant (free list acyclic, length NumPagesFree, disjoint from reachable, union = all pages). Non-trivial: "
+           "page-structure invariant (free list acyclic, length NumPagesFree, disjoint from reachable, union = all pages); rare plans: outgrow the file before and after a reopen; fill to the last whole page slot of the initial file (+-1) and reopen. Non-trivial: "
            ">=1 Reopen with >=2 free pages and a later Set that consumed a free page; distinct = FNV hash of (page size, op list).",
     "C20": "rapid generator: even length 0..520 (biased to small and to 8-word block edges), offset 0..9 in a backing "
            "array with 8..17 adversarial words behind the slice, ascending keys (dense/sparse/saturating/duplicates), "
